@@ -4,6 +4,7 @@ package world
 
 import (
 	"fmt"
+	"strings"
 	"time"
 
 	v1 "github.com/DataDog/extendeddaemonset/api/v1alpha1"
@@ -111,6 +112,9 @@ func MonC05(c *MonCtx) {
 	}
 	ns, name := split(c.Out.Ev.A)
 	sig, msg, changed := CheckPromotion(c.Pre, c.Out.Next, ns, name)
+	if strings.HasPrefix(sig, "C05/adopt") && (hasFault(c.Out.Log) || c.Out.RR.Err != nil) {
+		sig = "" // the positive clause is only promised for a reconcile that succeeded
+	}
 	if changed {
 		c.Antecedent("C05/active-changed")
 	}
